@@ -20,7 +20,7 @@ RULE = ('Each case = generated program into which 1-3 duplicate build_file/subbu
         'a caller whose record contains a setup-failed (rejected) call is never served from the cache. Non-trivial = a build '
         'containing a rejected duplicate while >=1 call of that build was served from the cache; distinct = distinct scenario JSON.')
 ASSUMPTIONS = ['duplicates are identified by the model with the independent canonical JSON form of (name, args, kwargs) / the absolute path']
-CFG = gen.cfg_with(probe_w=1, max_root=5, max_funcs=5, catch_p=0.9, root_catch_p=0.95, nonjson_p=0.0, kwargs_p=0.2)
+CFG = gen.cfg_with(probe_w=1, max_root=5, max_funcs=5, catch_p=0.9, root_catch_p=0.95, nonjson_p=0.0, kwargs_p=0.2, alt_roots_p=0.3)
 ADOPT = {'C01.outcome': 'C08.dup_outcome', 'C01.tree': 'C08.dup_outcome', 'C04.answer': 'C08.dup_outcome',
          'C01.stale_decision': 'C08.dup_outcome', 'C01.first_build': 'C08.dup_outcome'}
 
@@ -50,8 +50,35 @@ def program_strategy_c(draw, cfg, cache):
     return prog
 
 
+@st.composite
+def dup_across_builds_program(draw, cfg, cache):
+    """A key that one build requests only inside a cacheable caller and the next build (root variant) also requests
+    directly - before or after that caller: the duplicate is implied by the reuse of the caller's record.  The first
+    occurrence succeeds or fails (caught)."""
+    masked = set(gen.cache_ancestors(cache))
+    univ = [u for u in cfg['universe'] if u not in masked and u != cache and not any(v.startswith(u + '/') for v in cfg['universe'])]
+    kind = draw(st.sampled_from(['bf', 'bf', 'sb']))
+    fbody = draw(st.sampled_from([[['write']], [['write'], ['raise']], [['raise']], []])) if kind == 'bf' else \
+        draw(st.sampled_from([[], [['raise']], [['q', 'exists', draw(st.sampled_from(univ)), 'METADATA']]]))
+    funcs = {'f': {'kind': 'file' if kind == 'bf' else 'sub', 'body': fbody}}
+    call = ['bf', draw(st.sampled_from(univ)), 'f', [], draw(st.sampled_from(cfg['cmp'])), True] if kind == 'bf' else ['sb', 'f', [1], True]
+    gbody = [copy.deepcopy(call)]
+    if draw(st.booleans()):
+        gbody.append(['q', draw(st.sampled_from(['exists', 'is_file', 'list_dir'])), draw(st.sampled_from(univ + [''])), 'METADATA'])
+    funcs['g'] = {'kind': 'sub', 'body': gbody}
+    g_call = ['sb', 'g', [], True]
+    if draw(st.booleans()):
+        funcs['w'] = {'kind': 'sub', 'body': [g_call]}
+        g_call = ['sb', 'w', [], True]
+    root = [g_call]
+    alts = [[copy.deepcopy(call), g_call], [g_call, copy.deepcopy(call)]]
+    if draw(st.booleans()):
+        root, alts = alts[0], [root, alts[1]]
+    return {'root': root, 'funcs': funcs, 'universe': list(cfg['universe']), 'alt_roots': alts}
+
+
 def program_strategy(cfg, cache):
-    return program_strategy_c(cfg, cache)
+    return gen.weighted([(5, program_strategy_c(cfg, cache)), (1, dup_across_builds_program(cfg, cache))])
 
 
 def _has_dup(forest):
@@ -140,6 +167,15 @@ def race_program(draw, cfg, cache):
         # while the other requests f directly; a later build (root variant 2) requests outer alone
         inner = copy.deepcopy(call)
         inner[-1] = draw(st.booleans())
+        if draw(st.booleans()):
+            # the shared function fails (caught inside wrap, so that wrap's record stays reusable) and has a scheduling
+            # point inside: the competitor can be *in progress* while the other task validates wrap's record
+            fb = funcs['f']['body']
+            if not any(s_[0] == 'q' for s_ in fb):
+                fb.insert(0, ['q', 'exists', 'in/a', 'METADATA'])
+            if not any(s_[0] == 'raise' for s_ in fb):
+                fb.append(['raise'])
+            inner[-1] = True
         funcs['wrap'] = {'kind': 'sub', 'body': [inner]}
         funcs['outer'] = {'kind': 'sub', 'body': [['sb', 'wrap', [], True]]}
         t1 = [['sb', 'outer', [], True]]
